@@ -102,22 +102,29 @@ structure StitchState (α : Type) where
   sortedBy : Option Nat
   attempts : Nat
 
+/-- the number of rows a terminal merge produces -/
+def mergeCount (owner : StitchOwner) (l r : Nat) : Nat :=
+  match owner with
+  | .left => l
+  | .right => r
+  | .shared => (ScalarOps.roundHE ((ofInt (Int.ofNat (l + r)) : α) / ofInt 2)).toNat
+
+/-- which side provides the shared cells of result row `i` -/
+def pickLeft (owner : StitchOwner) (i : Nat) : Bool :=
+  match owner with
+  | .shared => i % 2 == 0
+  | .left => true
+  | .right => false
+
 /-- `_merge_microdata` -/
 def mergeMicrodata (c : StitchCtx α) (left right : List (MRow β α)) : GM α (List (MRow β α)) := do
   if left.isEmpty || right.isEmpty then throw "value"
-  let n : Nat := match c.owner with
-    | .left => left.length
-    | .right => right.length
-    | .shared => (ScalarOps.roundHE ((ofInt (Int.ofNat (left.length + right.length)) : α) / ofInt 2)).toNat
   let l1 ← drawShuffle left
-  let l2 ← alignLength n l1
-  let l3 := sortRows c.leftIdx l2
+  let l2 ← alignLength (mergeCount (α := α) c.owner left.length right.length) l1
   let r1 ← drawShuffle right
-  let r2 ← alignLength n r1
-  let r3 := sortRows c.rightIdx r2
-  return (List.range n).map fun i =>
-    let pick := match c.owner with | .shared => i % 2 == 0 | .left => true | .right => false
-    mergeRow c.cols pick (l3.getD i []) (r3.getD i [])
+  let r2 ← alignLength (mergeCount (α := α) c.owner left.length right.length) r1
+  return (List.range (mergeCount (α := α) c.owner left.length right.length)).map fun i =>
+    mergeRow c.cols (pickLeft c.owner i) ((sortRows c.leftIdx l2).getD i []) ((sortRows c.rightIdx r2).getD i [])
 
 /-- `_can_split` -/
 def canSplit (c : StitchCtx α) (st : StitchState α) : Bool :=
@@ -128,31 +135,41 @@ def canSplit (c : StitchCtx α) (st : StitchState α) : Bool :=
 
 def setAt {γ : Type} (l : List γ) (i : Nat) (v : γ) : List γ := l.set i v
 
+/-- both tables sorted by the current split column unless they already are -/
+def presort (c : StitchCtx α) (st : StitchState α) (left right : List (MRow β α)) : List (MRow β α) × List (MRow β α) :=
+  if st.sortedBy != some st.nextSort then
+    (sortRows [c.leftIdx.getD st.nextSort 0] left, sortRows [c.rightIdx.getD st.nextSort 0] right)
+  else (left, right)
+
+/-- the split attempt of `_stitch_rec` on tables sorted by the split column; `recur` is the recursive call -/
+def stitchSplit (c : StitchCtx α)
+    (recur : StitchState α → List (MRow β α) → List (MRow β α) → GM α (List (MRow β α)))
+    (st : StitchState α) (left right : List (MRow β α)) : GM α (List (MRow β α)) :=
+  let k := c.isIntegral.length
+  let col := st.nextSort
+  let li := c.leftIdx.getD col 0; let ri := c.rightIdx.getD col 0
+  let iv := st.intervals.getD col default
+  let mid := iv.middle
+  let lsp := (max 0 (binarySearch left li mid (left.length + 2) 0 left.length)).toNat
+  let rsp := (max 0 (binarySearch right ri mid (right.length + 2) 0 right.length)).toNat
+  if acceptableDistribution c.threshRel (left.take lsp).length (right.take rsp).length &&
+     acceptableDistribution c.threshRel (left.drop lsp).length (right.drop rsp).length then do
+    let lower ← recur ⟨setAt st.intervals col iv.lowerHalf, (col + 1) % k, some col, k⟩ (left.take lsp) (right.take rsp)
+    let upper ← recur ⟨setAt st.intervals col iv.upperHalf, (col + 1) % k, some col, k⟩ (left.drop lsp) (right.drop rsp)
+    pure (lower ++ upper)
+  else
+    recur ⟨(if (left.take lsp).isEmpty && (right.take rsp).isEmpty then setAt st.intervals col iv.upperHalf
+            else if (left.drop lsp).isEmpty && (right.drop rsp).isEmpty then setAt st.intervals col iv.lowerHalf else st.intervals),
+           (col + 1) % k, some col, st.attempts - 1⟩ left right
+
 /-- `_stitch_rec` -/
 def stitchRec (c : StitchCtx α) : Nat → StitchState α → List (MRow β α) → List (MRow β α) → GM α (List (MRow β α))
   | 0, _, _, _ => throw "fuel"
   | fuel + 1, st, left, right =>
-    let k := c.isIntegral.length
     if st.attempts == 0 || left.length == 1 || right.length == 1 then mergeMicrodata c left right
-    else if canSplit c st then do
-      let col := st.nextSort
-      let li := c.leftIdx.getD col 0; let ri := c.rightIdx.getD col 0
-      let (left, right) := if st.sortedBy != some col then (sortRows [li] left, sortRows [ri] right) else (left, right)
-      let iv := st.intervals.getD col default
-      let mid := iv.middle
-      let lsp := (max 0 (binarySearch left li mid (left.length + 2) 0 left.length)).toNat
-      let rsp := (max 0 (binarySearch right ri mid (right.length + 2) 0 right.length)).toNat
-      let ll := left.take lsp; let rl := right.take rsp
-      let lu := left.drop lsp; let ru := right.drop rsp
-      if acceptableDistribution c.threshRel ll.length rl.length && acceptableDistribution c.threshRel lu.length ru.length then do
-        let lower ← stitchRec c fuel ⟨setAt st.intervals col iv.lowerHalf, (col + 1) % k, some col, k⟩ ll rl
-        let upper ← stitchRec c fuel ⟨setAt st.intervals col iv.upperHalf, (col + 1) % k, some col, k⟩ lu ru
-        return lower ++ upper
-      else
-        let ivs := if ll.isEmpty && rl.isEmpty then setAt st.intervals col iv.upperHalf
-          else if lu.isEmpty && ru.isEmpty then setAt st.intervals col iv.lowerHalf else st.intervals
-        stitchRec c fuel ⟨ivs, (col + 1) % k, some col, st.attempts - 1⟩ left right
-    else stitchRec c fuel { st with nextSort := (st.nextSort + 1) % k, attempts := st.attempts - 1 } left right
+    else if canSplit c st then
+      stitchSplit c (stitchRec c fuel) st (presort c st left right).1 (presort c st left right).2
+    else stitchRec c fuel { st with nextSort := (st.nextSort + 1) % c.isIntegral.length, attempts := st.attempts - 1 } left right
 
 /-- a microtable: rows and the (global) column ids of its columns -/
 abbrev MTable (β α : Type) := List (MRow β α) × List Nat
